@@ -95,7 +95,6 @@ type G struct {
 	cbs     []CB
 	polls   []*Poll
 	commits []Commit
-	apiCall map[string][]int64 // member -> stamps of Close/LeaveGroup/commit API calls
 	clients map[string]*kgo.Client
 	subs    map[string]map[string]bool // live member -> subscribed topics
 	id2t    map[[16]byte]string
@@ -126,7 +125,7 @@ func ClusterOpts(topics map[string]int32) []kfake.Opt {
 // New creates the cluster (one broker: connection names must not depend on
 // which member the balancer happens to favour) and the log.
 func New(x *netctl.Exec, proto Proto, topics map[string]int32) *G {
-	g := &G{X: x, Proto: proto, apiCall: map[string][]int64{}, clients: map[string]*kgo.Client{}, subs: map[string]map[string]bool{}, id2t: map[[16]byte]string{}, notify: make(chan struct{})}
+	g := &G{X: x, Proto: proto, clients: map[string]*kgo.Client{}, subs: map[string]map[string]bool{}, id2t: map[[16]byte]string{}, notify: make(chan struct{})}
 	g.C = x.Cluster(1, ClusterOpts(topics)...)
 	g.quit = make(chan struct{})
 	x.OnCleanup(func() { close(g.quit) }) // registered after the cluster's Close, so it runs before it
@@ -171,7 +170,7 @@ func (g *G) WaitUntil(limit time.Duration, cond func() bool) bool {
 
 // Owned returns the partitions member owns according to the callback log.
 func (g *G) Owned(member string) []TP {
-	cbs, _, _, _ := g.Snapshot()
+	cbs, _, _ := g.Snapshot()
 	var out []TP
 	for tp, ms := range Owners(cbs, nil) {
 		if _, ok := ms[member]; ok {
@@ -315,15 +314,6 @@ func (g *G) Live() []string {
 	return out
 }
 
-// APICall stamps a Close/LeaveGroup/commit API call of a member (C08: such a
-// call is, like a poll start, a point after which earlier polls count as
-// processed by the application).
-func (g *G) APICall(member string) {
-	g.mu.Lock()
-	g.apiCall[member] = append(g.apiCall[member], g.stamp())
-	g.mu.Unlock()
-}
-
 // PollOnce calls PollRecords(ctx, max) with a virtual timeout and stamps
 // start and return around it.
 func (g *G) PollOnce(member string, cl *kgo.Client, max int, timeout time.Duration) *Poll {
@@ -380,7 +370,7 @@ func (g *G) HookCommits() {
 }
 
 // Snapshot returns copies of the logs.
-func (g *G) Snapshot() (cbs []CB, polls []Poll, commits []Commit, api map[string][]int64) {
+func (g *G) Snapshot() (cbs []CB, polls []Poll, commits []Commit) {
 	g.mu.Lock()
 	defer g.mu.Unlock()
 	cbs = append(cbs, g.cbs...)
@@ -388,10 +378,6 @@ func (g *G) Snapshot() (cbs []CB, polls []Poll, commits []Commit, api map[string
 		polls = append(polls, *p)
 	}
 	commits = append(commits, g.commits...)
-	api = map[string][]int64{}
-	for m, s := range g.apiCall {
-		api[m] = append([]int64(nil), s...)
-	}
 	return
 }
 
@@ -469,7 +455,7 @@ func FormatCBs(cbs []CB, upto int64) string {
 // subscribe to is owned by exactly one live member (and nothing is owned by a
 // member that left), judged from the callback log.
 func (g *G) Converged() (bool, string) {
-	cbs, _, _, _ := g.Snapshot()
+	cbs, _, _ := g.Snapshot()
 	owners := Owners(cbs, nil)
 	live := map[string]bool{}
 	for _, m := range g.Live() {
@@ -513,6 +499,152 @@ func Outcome(cbs []CB) string {
 		fmt.Fprintf(&b, "%s%c%c%d ", e.Member, ph, e.Kind[0], len(e.Parts))
 	}
 	return strings.TrimSpace(b.String())
+}
+
+// ---------------------------------------------------------------------------
+// C08 oracles
+
+// Returned reports how many records of member (any member if "") polls that
+// returned have delivered so far.
+func (g *G) Returned(member string) int {
+	g.mu.Lock()
+	defer g.mu.Unlock()
+	n := 0
+	for _, p := range g.polls {
+		if p.Return != 0 && (member == "" || p.Member == member) {
+			n += len(p.Recs)
+		}
+	}
+	return n
+}
+
+// CheckCommits is oracle (i). For every partition of every OffsetCommit
+// request, stamped s when it was delivered to the broker, committing offset o
+// of tp on a connection of member m:
+//
+//	(a) every offset below o (the log starts at 0 and the group starts from
+//	    the beginning) was returned by a poll of some member that returned
+//	    before s;
+//	(b) o <= 1 + the highest offset of tp that m itself returned in a poll
+//	    after whose return m started another poll before s. This is what the
+//	    client promises for default autocommit: updateUncommitted only moves
+//	    `dirty`; `head` is `dirty` promoted at the start of the NEXT poll
+//	    (undirtyUncommitted), and the autocommit loop, the default
+//	    OnPartitionsRevoked and therefore LeaveGroup/Close all commit `head`.
+//
+// Soundness of the stamps: a poll start is stamped before the call (hence
+// before the promotion, hence before a commit built from it reaches the
+// proxy); a poll return is stamped after the call (the records became `dirty`
+// before that, and can be promoted only by a later poll of the same thread).
+func CheckCommits(polls []Poll, commits []Commit, violate func(key, format string, a ...any)) {
+	type retKey struct {
+		tp  TP
+		off int64
+	}
+	firstReturn := map[retKey]int64{} // earliest return stamp of a poll that delivered the record
+	for _, p := range polls {
+		if p.Return == 0 {
+			continue
+		}
+		for _, r := range p.Recs {
+			k := retKey{r.TP, r.Off}
+			if s, ok := firstReturn[k]; !ok || p.Return < s {
+				firstReturn[k] = p.Return
+			}
+		}
+	}
+	starts := map[string][]int64{}
+	for _, p := range polls {
+		starts[p.Member] = append(starts[p.Member], p.Start)
+	}
+	for _, c := range commits {
+		for off := int64(0); off < c.Off; off++ {
+			if s, ok := firstReturn[retKey{c.TP, off}]; !ok || s > c.Seq {
+				violate("commit-skips-unreturned", "member %s committed offset %d of %v (request delivered at seq %d, generation %d) but record %d of that partition had not been returned by any poll by then (first return stamp: %v); %s",
+					c.Member, c.Off, c.TP, c.Seq, c.Gen, off, s, FormatPolls(polls, c.TP, c.Seq))
+				break
+			}
+		}
+		promoted := int64(0)
+		for _, p := range polls {
+			if p.Member != c.Member || p.Return == 0 || p.Return > c.Seq {
+				continue
+			}
+			followed := false
+			for _, st := range starts[c.Member] {
+				if st > p.Return && st < c.Seq {
+					followed = true
+					break
+				}
+			}
+			if !followed {
+				continue
+			}
+			for _, r := range p.Recs {
+				if r.TP == c.TP && r.Off+1 > promoted {
+					promoted = r.Off + 1
+				}
+			}
+		}
+		if c.Off > promoted {
+			violate("commit-covers-last-poll", "member %s committed offset %d of %v (request delivered at seq %d, generation %d) but its polls that were followed by the start of another poll before that only reach offset %d: the commit covers records of a poll the application has not finished; %s",
+				c.Member, c.Off, c.TP, c.Seq, c.Gen, promoted, FormatPolls(polls, c.TP, c.Seq))
+		}
+	}
+}
+
+// CheckFinal is oracle (ii): every record below the group's committed offset
+// was returned by some poll.
+func CheckFinal(polls []Poll, committed map[TP]int64, violate func(key, format string, a ...any)) {
+	got := map[TP]map[int64]bool{}
+	for _, p := range polls {
+		if p.Return == 0 {
+			continue
+		}
+		for _, r := range p.Recs {
+			if got[r.TP] == nil {
+				got[r.TP] = map[int64]bool{}
+			}
+			got[r.TP][r.Off] = true
+		}
+	}
+	var tps []TP
+	for tp := range committed {
+		tps = append(tps, tp)
+	}
+	sort.Slice(tps, func(i, j int) bool { return tps[i].T < tps[j].T || tps[i].T == tps[j].T && tps[i].P < tps[j].P })
+	for _, tp := range tps {
+		for off := int64(0); off < committed[tp]; off++ {
+			if !got[tp][off] {
+				violate("final-commit-skips-record", "the group's committed offset of %v is %d but record %d was never returned to any member; %s", tp, committed[tp], off, FormatPolls(polls, tp, 1<<62))
+				break
+			}
+		}
+	}
+}
+
+// FormatPolls renders the polls that touched tp (and all poll starts) up to seq.
+func FormatPolls(polls []Poll, tp TP, upto int64) string {
+	var b strings.Builder
+	b.WriteString("polls:")
+	for _, p := range polls {
+		if p.Start > upto {
+			continue
+		}
+		var offs []int64
+		for _, r := range p.Recs {
+			if r.TP == tp {
+				offs = append(offs, r.Off)
+			}
+		}
+		ret := fmt.Sprint(p.Return)
+		if p.Return == 0 || p.Return > upto {
+			ret = "-"
+			offs = nil
+		}
+		fmt.Fprintf(&b, " [%s start=%d return=%s %v]", p.Member, p.Start, ret, offs)
+	}
+	return b.String()
 }
 
 // ---------------------------------------------------------------------------
